@@ -16,8 +16,9 @@ import PolyVerif.Model.Obj
     c05.holds.roundtrip <scene> <result>                    → RoundTrips (strict)
     c05.holds.roundtrip_matless_after_mat <scene> <result>  → same predicate (known finding class)
     c05.holds.roundtrip_empty_mesh_not_last <scene> <result>→ same predicate (known finding class)
-    c05.holds.resave <text> <text'>   → `Resaves`: text' (= Write(Read text)) has the faces of text (count, order, per-corner data)
-    c05.holds.resave_mixed_shapes …   → same predicate; texts with a group that mixes corner shapes (finding class)
+    c05.holds.resave <text> <text'>   → `Resaves`: text' (= Write(Read text)) has the faces of text (count, order, positions,
+                                        vt/vn where the whole group has them) and the reader accepts text' again
+    c05.holds.resave_mixed_shapes …   → same predicate; texts with a group that mixes corner shapes
 -/
 namespace Driver.C05
 open PolyVerif PolyVerif.Obj
@@ -199,7 +200,7 @@ def lexLine (line : String) : Line String S :=
     | "f" => match args with
       | a :: b :: c :: _ => .f a b c
       | _ => if args.any (fun t => match pcStr t with | .error .err => true | _ => false) then .bad .err else .bad .panic
-    | "g" => if args.isEmpty then .bad .err else .g (" ".intercalate args)
+    | "g" => .g (" ".intercalate args)
     | "usemtl" => if args.isEmpty then .bad .err else .usemtl (" ".intercalate args)
     | "mtllib" => if args.isEmpty then .bad .err else .mtllib args
     | _ => .other line
@@ -340,7 +341,10 @@ def handle (op : String) (args : List String) : Option String := do
       match args with
       | [a, b] =>
         let a ← strOfHex a; let b ← strOfHex b
-        pure (boolStr (Resaves pcStr pcStr id (lexText a) (lexText b)))
+        let reload := match readObj pcStr (lexText b) with
+          | .ok _ => true
+          | .error _ => false
+        pure (boolStr (Resaves pcStr pcStr (lexText a) (lexText b) && reload))
       | _ => none
   | _ => none
 
